@@ -12,6 +12,26 @@ def _run_dill_encoded(payload):
     return res
 
 
+class _WorkerException:
+    """
+    Wrapper used to send an exception raised by a task in a worker process back to the
+    main process. If the exception itself cannot be pickled, it is replaced by a
+    RuntimeError carrying its description and traceback.
+    """
+
+    def __init__(self, exception):
+        import pickle
+        import traceback
+
+        try:
+            pickle.loads(pickle.dumps(exception))
+            self.exception = exception
+        except Exception:
+            self.exception = RuntimeError(
+                "Exception in ParallelMap worker:\n" + traceback.format_exc()
+            )
+
+
 class ParallelMap:
     """
     Apply functions in parallel, using dill for pickling, inspired by example here
@@ -69,9 +89,15 @@ class ParallelMap:
         f_Z = equilibrium.f_Z
         while True:
             i, function, args, kwargs = task_queue.get()
-            result = function(
-                *args, equilibrium=equilibrium, psi=psi, f_R=f_R, f_Z=f_Z, **kwargs
-            )
+            try:
+                result = function(
+                    *args, equilibrium=equilibrium, psi=psi, f_R=f_R, f_Z=f_Z, **kwargs
+                )
+            except Exception as e:
+                # Do not let the worker die (the caller would wait forever for this
+                # result): report the exception in place of the result, to be
+                # re-raised by __call__().
+                result = _WorkerException(e)
             result_queue.put((i, result))
 
     def __call__(self, function, args_list, **kwargs):
@@ -103,5 +129,11 @@ class ParallelMap:
             raise ValueError("Some tasks not finished")
         if not self.result_queue.empty():
             raise ValueError("Some results not handled")
+
+        # If any task failed, raise the exception of the first failing task (in the
+        # order of args_list), as serial execution would have done.
+        for this_result in result:
+            if isinstance(this_result, _WorkerException):
+                raise this_result.exception
 
         return result
